@@ -123,16 +123,18 @@ def source(n_chunks, kind, empties=(), closable=True):
     return src
 
 
-def reference(plans, expected, n_chunks):
+def reference(plans, expected, n_chunks, allowed=None):
     """Expected trace per the property: -> (reads delivered, per-inspector
-    chunks fed, final outcome)."""
+    chunks fed, final outcome).  A non-empty allow-list leaves only the
+    listed formats (an expected format outside it has no inspector: the
+    wrapper is a plain pipe for it)."""
     fed = {n: [] for n in plans}
     errored = set()
     delivered = 0
     for i in range(n_chunks):
         outcome = None
         for n in plans:
-            if n in errored:
+            if n in errored or (allowed and n not in allowed):
                 continue
             fed[n].append(i)
             fault = plans[n].get('fault', {}).get(i)
@@ -247,6 +249,23 @@ def run(ctx):
                 plans['vhdx'].setdefault('match', (False, False, False))
                 n_cases += 1
                 _scenario(ctx, cls, kind, 'vhdx', plans, n_chunks,
+                          allowed=allowed)
+    # a non-empty allow-list: the formats outside it have no inspector,
+    # whether or not one of them is the expected format
+    for kind in ('file', 'iter'):
+        for allowed, expected in ((['qcow2', 'raw'], 'vhdx'),
+                                  (['qcow2', 'raw'], 'qcow2'),
+                                  (['raw'], 'vhd'), (['vhd', 'vhdx'], 'vhd'),
+                                  (('raw', 'vhdx'), None)):
+            for sc in ({expected: {'fault': {0: 'ValueError'}}},
+                       {expected: {'complete': (False, True, True),
+                                   'match': (False, False, False)}},
+                       {'vhdx': {'fault': {1: 'KeyError'}}}, {}):
+                if None in sc and len(sc) == 1:
+                    continue
+                plans = {n: dict(sc.get(n, {})) for n in names}
+                n_cases += 1
+                _scenario(ctx, cls, kind, expected, plans, n_chunks,
                           allowed=allowed)
     n_cases += query_invariance(ctx)
     _finish_never_raises(ctx)
@@ -397,8 +416,8 @@ def _scenario(ctx, cls, kind, expected, plans, n_chunks, query=False,
         return
 
     def judge(o):
-        want_delivered, want_fed, want_out, at = reference(plans, expected,
-                                                           n_chunks)
+        want_delivered, want_fed, want_out, at = reference(
+            plans, expected, n_chunks, allowed)
         delivered = [e for e in o.effects if e[0] == 'delivered']
         # R6.1 identity of delivered chunks
         ok = all(e[2] == (K(b'') if e[1].v in empties else
@@ -448,7 +467,8 @@ def _scenario(ctx, cls, kind, expected, plans, n_chunks, query=False,
             if kind == 'iter':
                 stops = [e for e in o.effects if e[0] == 'stop']
                 fin = [e[1] for e in o.effects if e[0] == 'finish']
-                alive = set(n for n in plans if not plans[n].get('fault'))
+                alive = set(n for n in plans if not plans[n].get('fault')
+                            and (not allowed or n in allowed))
                 rep.check('R6.4', key + ':eof', len(stops) == 1 and
                           stops[0][1] == T('exc', 'StopIteration') and
                           set(fin) >= alive,
